@@ -139,6 +139,9 @@ def gs2Field (p : Bytes) : Option (UInt8 × Bytes) :=
 /-- `parseGS2`: the accepted pieces in order of occurrence (the C++ inserts them into a `QMap<char,…>` in this order) -/
 def parseGS2 (ch : Bytes) : List (UInt8 × Bytes) := (splitOn 44 ch).filterMap gs2Field
 
+/-- `map.contains(k)` -/
+def gs2Has (m : List (UInt8 × Bytes)) (k : UInt8) : Bool := m.any fun p => p.1 == k
+
 /-- `map.value(k)`: later pieces overwrite earlier ones, a missing key gives the empty array -/
 def gs2Get (m : List (UInt8 × Bytes)) (k : UInt8) : Bytes :=
   m.foldl (fun acc p => if p.1 = k then p.2 else acc) []
@@ -256,7 +259,8 @@ def scramStep (C : Crypto) (cr : Cred) (s : ScramSt) (ch : Bytes) : ScramSt × O
     let nonce := gs2Get input 114
     let salt := Base64.decodeLenient (gs2Get input 115)
     let iters := toInt (gs2Get input 105)
-    if !(cr.cnonce.isPrefixOf nonce) || salt.isEmpty || iters < 1 then (s, none)
+    -- `input.contains('m')`: the reserved attribute must cause failure (RFC 5802 §5.1, repo commit ff6a7ed)
+    if gs2Has input 109 || !(cr.cnonce.isPrefixOf nonce) || salt.isEmpty || iters < 1 then (s, none)
     else
       let salted := C.Hi cr.pass salt iters.toNat
       let clientKey := C.HMAC salted sClientKey
@@ -267,7 +271,7 @@ def scramStep (C : Crypto) (cr : Cred) (s : ScramSt) (ch : Bytes) : ScramSt × O
       ({ s with step := 2, serverSig := C.HMAC serverKey authMessage },
        some (scramFinalBare nonce ++ sCommaPEq ++ Base64.encode proof))
   else if s.step = 2 then
-    if Base64.decodeLenient (gs2Get (parseGS2 ch) 118) = s.serverSig then
+    if !gs2Has (parseGS2 ch) 109 && Base64.decodeLenient (gs2Get (parseGS2 ch) 118) = s.serverSig then
       ({ s with step := 3, verified := true }, some [])
     else ({ s with step := 3 }, none)
   else (s, none)
@@ -406,9 +410,11 @@ def mgrStart (C : Crypto) (md5 : Bytes → Bytes) (cr : Cred) (sasl2 : Bool) (k 
   | some initial => ({ sasl2 := sasl2, pending := true, mech := r.1 }, [.auth initial])
   | none => ({ sasl2 := sasl2, pending := false, mech := r.1, result := some .cannotRespond }, [])
 
-/-- `m_saslClient->serverVerified()`: `m_serverVerified` for SCRAM, `true` for every other mechanism -/
+/-- `m_saslClient->serverVerified()`: `m_serverVerified` for SCRAM, `m_step > 2` for DIGEST-MD5 (repo commit 8012ab0:
+step 3 is only reached through a correct `rspauth`), `true` for every other mechanism -/
 def mechVerified : MechSt → Bool
   | .scram s => s.verified
+  | .digest s => decide (2 < s.step)
   | _ => true
 
 /-- `SaslManager::handleElement` (`sasl2 = false`) and `Sasl2Manager::handleElement` (`sasl2 = true`).
@@ -450,17 +456,9 @@ def mgrRun (C : Crypto) (md5 : Bytes → Bytes) (cr : Cred) (st : MgrSt) : List 
     let r2 := mgrRun C md5 cr r1.1 els
     (r2.1, r1.2.1 ++ r2.2)
 
-/-- "the server has proved knowledge of the password": for SCRAM the server signature was compared equal;
-mechanisms without mutual authentication have nothing to verify -/
+/-- "the server has proved knowledge of the password": SCRAM — the server signature was compared equal; DIGEST-MD5 —
+a correct `rspauth` was seen; mechanisms without mutual authentication have nothing to verify -/
 def serverSignatureVerified (st : MgrSt) : Bool := mechVerified st.mech
-
-/-- what the property asks of a successful login: SCRAM — the server signature was compared equal; DIGEST-MD5 — the
-client reached step 3, which only a correct `rspauth` leads to (`digestStep`, step 2); other mechanisms have no
-server proof.  (Differs from `mechVerified`, the C++'s `serverVerified()`, exactly for DIGEST-MD5.) -/
-def serverProofSeen : MechSt → Bool
-  | .scram s => s.verified
-  | .digest s => s.step == 3
-  | _ => true
 
 def isScram (st : MgrSt) : Bool :=
   match st.mech with
